@@ -8,7 +8,7 @@ from spec import oracle as orc
 from . import domain as D
 from .common import Recorder
 
-SCHEMAS = ["basic", "list", "table", "marksx"]
+SCHEMAS = ["basic", "list", "table", "marksx", "note"]
 
 
 def expected_marks(O, path, toff):
